@@ -108,6 +108,56 @@ static void shape(size_t adlen, size_t mlen, int pat, int full_tag)
     hx_free(ad); hx_free(m); hx_free(c); hx_free(m2);
 }
 
+/* incremental family only: packets 2 and 3 of a session on one state object (start() again without init): a valid one-shot ciphertext under nonce N+i must decrypt,
+ * and forgeries must be rejected, whatever the previous packet was (encrypted / decrypted-accepted / decrypted-rejected / started and abandoned) and however long it was */
+static void nonce_add(uint8_t n[16], unsigned v) { for (int i = 15; i >= 0 && v; i--) { v += n[i]; n[i] = (uint8_t)v; v >>= 8; } }
+static void sessions(int pat, int tier)
+{
+    static const int qs[] = {0, 1, 7, 8, 9, 15, 16, 17, 31, 32, 33, 55};
+    uint8_t key[20], nonce[16], n2[16], ad[64], m[64], c[96], prev[96], out[64], tag[16]; char kb[96]; size_t clen;
+    hx_fill(key, klen, pat, 1); hx_fill(nonce, 16, pat, 2); hx_fill(ad, 64, pat, 3); hx_fill(m, 64, pat, 4);
+    if (tier) memset(nonce + 9, 0xff, 7);   /* carries across packets */
+    int nq = tier ? 12 : 9;
+    for (int pk = 0; pk < 4; pk++) for (int pi = 0; pi < nq; pi++) for (int pa = 0; pa < 3; pa++) for (int li = 0; li < nq; li++) for (int ai = 0; ai < 3; ai++) {
+        size_t pl = (size_t)qs[pi], l = (size_t)qs[li], padl = (size_t)qs[pa * 2], adl = (size_t)qs[ai * 3 % 7];
+        api_inc_state st; api_inc_init[alg](&st, nonce, key);
+        /* packet 1 */
+        api_inc_start[alg](&st, padl ? ad + 5 : 0, padl);
+        if (pk == 0) { api_inc_enc[alg](&st, m + 3, prev, pl); api_inc_encfin[alg](&st, tag); }
+        else if (pk == 1 || pk == 2) {
+            memcpy(n2, nonce, 16); api_aead_enc[alg](prev, &clen, m + 3, pl, padl ? ad + 5 : 0, padl, n2, key);
+            if (pk == 2) prev[pl + 3] ^= 4;
+            api_inc_dec[alg](&st, prev, out, pl); int r1 = api_inc_decfin[alg](&st, prev + pl);
+            snprintf(kb, sizeof kb, "%s:session:first-packet", keybase);
+            if ((pk == 1) != (r1 == 0)) hx_fail(kb, "packet 1 (%s) of %zu bytes: result %d", pk == 1 ? "valid" : "forged", pl, r1);
+        } else { api_inc_enc[alg](&st, m + 3, prev, pl); /* abandoned: no finalize */ }
+        /* packet 2: nonce N+1 */
+        memcpy(n2, nonce, 16); nonce_add(n2, 1);
+        api_aead_enc[alg](c, &clen, m, l, adl ? ad : 0, adl, n2, key);
+        api_inc_start[alg](&st, adl ? ad : 0, adl);
+        memset(out, 0xAA, sizeof out);
+        /* decrypt in two chunks */
+        api_inc_dec[alg](&st, c, out, l / 2); api_inc_dec[alg](&st, c + l / 2, out + l / 2, l - l / 2);
+        int r = api_inc_decfin[alg](&st, c + l); hx_stat("evaluations", 1);
+        snprintf(kb, sizeof kb, "%s:session:roundtrip", keybase);
+        if (r != 0 || memcmp(out, m, l)) hx_fail(kb, "packet 2 of a session (previous packet: %s, %zu bytes, adlen %zu; this packet mlen=%zu adlen=%zu): valid ciphertext under nonce+1 %s",
+                                                 pk == 0 ? "encrypted" : pk == 1 ? "decrypted" : pk == 2 ? "rejected" : "abandoned", pl, padl, l, adl, r ? "rejected" : "decrypts to different plaintext");
+        /* packet 3: forged tag under nonce N+2 must be rejected, then packet 4 valid */
+        memcpy(n2, nonce, 16); nonce_add(n2, 2);
+        api_aead_enc[alg](c, &clen, m, l, adl ? ad : 0, adl, n2, key); c[l + (l % 16)] ^= 0x20;
+        api_inc_start[alg](&st, adl ? ad : 0, adl); api_inc_dec[alg](&st, c, out, l); r = api_inc_decfin[alg](&st, c + l); hx_stat("evaluations", 1); forged++;
+        snprintf(kb, sizeof kb, "%s:session:accepts-forgery", keybase);
+        if (r >= 0) hx_fail(kb, "packet 3 of a session with a forged tag accepted (mlen=%zu adlen=%zu)", l, adl);
+        memcpy(n2, nonce, 16); nonce_add(n2, 3);
+        api_aead_enc[alg](c, &clen, m + 1, l, 0, 0, n2, key);
+        api_inc_start[alg](&st, 0, 0); api_inc_dec[alg](&st, c, out, l); r = api_inc_decfin[alg](&st, c + l); hx_stat("evaluations", 1);
+        snprintf(kb, sizeof kb, "%s:session:roundtrip", keybase);
+        if (r != 0 || memcmp(out, m + 1, l)) hx_fail(kb, "packet 4 of a session (after a rejected packet, mlen=%zu): valid ciphertext under nonce+3 %s", l, r ? "rejected" : "decrypts to different plaintext");
+        api_inc_free[alg](&st);
+        hx_stat("shapes", 1);
+    }
+}
+
 int main(int argc, char **argv)
 {
     hx_init();
@@ -148,6 +198,7 @@ int main(int argc, char **argv)
         }
         free(ad); free(m); free(c); hx_free(p);
     }
+    if (fam == 1) sessions(pat, tier);
     hx_stat("forgeries", forged);
     hx_sample("family=%s alg=%d pattern=%d: per shape round trip + every bit flip of ct/tag/ad/nonce/key + tag byte XORs + every truncation + extensions", famname[fam], alg, pat);
     hx_finish();
